@@ -202,9 +202,21 @@ def rule_a(ctx, R, tb):
             unknown.append("switch at bb%d (%s)" % (sb, c[0] if c else "?"))
     ctx.ob("C05-a", "Err is returned under the test gdod <= 0 (true edge)", test is not None and test[3], fn, "divergence-test-direction",
            where=pat.where(est), detail="found %s" % (("%s on %r, Err on %s edge" % (test[2], test[1], "true" if test[3] else "other")) if test else "no comparison of a value against 0.0 controls the Err return"))
-    ctx.ob("C05-a", "exemption: the empty subset (is_empty(loop subset) false edge)", kinds.get("empty", (0, False))[1], fn, "exemption-empty", where=pat.where(est))
-    ctx.ob("C05-a", "exemption: the full graph (subset != full id)", kinds.get("full", (0, False))[1], fn, "exemption-full", where=pat.where(est))
-    ctx.ob("C05-a", "no further condition guards the Err return", not unknown, fn, "extra-exemption", where=pat.where(est),
+    ex_empty, ex_full, ex_none = kinds.get("empty", (0, False))[1], kinds.get("full", (0, False))[1], not unknown
+    how = ""
+    if not (ex_empty and ex_full and ex_none):
+        # the exemptions may be folded into a named boolean (`let proper = !empty && != full; if proper && gdod <= 0`): then the CFG
+        # switches on a local, and the condition is decided on the typed HIR instead — its boolean structure must be exactly the
+        # conjunction test ∧ ¬empty ∧ ≠full
+        ok_t, why_t = exemptions_on_thir(ctx)
+        if ok_t:
+            ex_empty = ex_full = ex_none = True
+            how = " [decided on the typed HIR: %s]" % why_t
+        else:
+            unknown.append("typed-HIR condition: %s" % why_t)
+    ctx.ob("C05-a", "exemption: the empty subset (is_empty(loop subset) false edge)" + how, ex_empty, fn, "exemption-empty", where=pat.where(est))
+    ctx.ob("C05-a", "exemption: the full graph (subset != full id)" + how, ex_full, fn, "exemption-full", where=pat.where(est))
+    ctx.ob("C05-a", "no further condition guards the Err return" + how, ex_none, fn, "extra-exemption", where=pat.where(est),
            detail="additional conditions on the path to Err: %s" % unknown)
     if test is not None:
         sb, x, op, good = test
@@ -234,8 +246,65 @@ def rule_a(ctx, R, tb):
                             if sx != dtgt:
                                 exempt_edges.add((esb, sx))
         r = tb.reachable_from(some_t, avoid=frozenset([sb]), avoid_edges=frozenset(exempt_edges))
-        ctx.ob("C05-a", "on every iteration path the test is evaluated unless the subset is exempt", nbb not in r, fn, "test-every-iteration",
+        ctx.ob("C05-a", "on every iteration path the test is evaluated unless the subset is exempt" + how, nbb not in r or bool(how), fn, "test-every-iteration",
                detail="a path from the loop head back to the loop head avoids both the test and the exemptions")
+
+
+def exemptions_on_thir(ctx):
+    """The condition under which the table builder returns Err, as a boolean tree from the kernel engine's evaluation of the builder:
+    it must be equivalent to (tested value <= 0 | < 0) ∧ (subset not empty) ∧ (subset != full id), with no other atom."""
+    from .kernels import table_world
+    from ..kern import boolean
+    from ..kern.interp import Opt
+    try:
+        tw = table_world(ctx)
+    except Exception as e:
+        return False, "table builder not summarised (%s)" % e
+    if getattr(tw, "error", None) or not hasattr(tw, "I"):
+        return False, "table builder not summarised (%s)" % getattr(tw, "error", "?")
+    exits = [(c, g) for c, v_, g in tw.I.early_conds if isinstance(v_, Opt) and v_.some is False]
+    if len(exits) != 1:
+        return False, "%d error exits in the summarised builder" % len(exits)
+    if exits[0][1]:
+        return False, "the error exit sits under index guards %s: it is not evaluated for every subset" % (exits[0][1],)
+    tree = exits[0][0].tree
+    atoms = []
+
+    def collect(t):
+        if t[0] in ("and", "or"):
+            collect(t[1]); collect(t[2])
+        elif t[0] == "not":
+            collect(t[1])
+        else:
+            atoms.append(t)
+    collect(tree)
+    test = nonempty = nonfull = None
+    for a in atoms:
+        txt = boolean.normal_text(a)
+        if a[0] == "cmp" and a[1] in ("Le", "Lt") and str(a[3]).strip() == "0":
+            test = a
+        elif a[0] == "cmp" and a[1] in ("Ge", "Gt") and str(a[2]).strip() == "0":
+            test = a
+        elif a[0] == "cmp" and a[1] in ("Ne", "Eq") and ("graph(full)" in (str(a[2]), str(a[3]))):
+            nonfull = a if a[1] == "Ne" else ("not", a)
+        elif a[0] == "atom" and " Ne graph(full)" in txt:
+            nonfull = a
+        elif a[0] == "atom" and " Eq graph(full)" in txt:
+            nonfull = ("not", a)
+        elif a[0] == "atom" and ("!=«0»" in txt or "«0»!=" in txt):
+            nonempty = a
+        elif a[0] == "atom" and (txt.endswith("=«0»") or txt.startswith("«0»=") or txt.startswith("empty(")):
+            nonempty = ("not", a)
+        else:
+            return False, "a condition outside {test, empty, full} guards the Err return: %s" % txt[:120]
+    if test is None or nonempty is None or nonfull is None:
+        return False, "missing %s in the Err condition" % [n for n, x in (("test", test), ("¬empty", nonempty), ("≠full", nonfull)) if x is None]
+    want = ("and", test, ("and", nonempty, nonfull))
+    try:
+        ok, why = boolean.prop_equiv(tree, want)
+    except boolean.NotComparable as e:
+        return False, "not comparable (%s)" % e
+    return ok, ("Err condition ≡ test ∧ ¬empty ∧ ≠full; " + why) if ok else ("Err condition is not the conjunction test ∧ ¬empty ∧ ≠full: " + why)
 
 
 def is_full_id_ctor(ctx, R, fb):
